@@ -33,6 +33,7 @@ func checkC09(c *Ctx) {
 	rDrainKeepsHealthVerdict(c, "R09.11 drain-keeps-the-health-verdict")
 	// the balancer that was put in service is not disposed by the command that installed it (shared with C01)
 	r011(c, "R09.12 health-gate-dominates-publication")
+	rRefreshAlwaysPublishes(c, "R09.13 refresh-always-publishes")
 }
 
 func r092(c *Ctx) {
@@ -595,4 +596,28 @@ func rRotationOnlyRefreshed(c *Ctx, rule string) {
 		c.ob(rule, "write LoadBalancer.healthy <- "+fname(o), w.instr.Pos(), ok, true, "the rotation may be written only by updateHealthyTargets (which rebuilds it from every target's current state) and while the balancer is being constructed")
 	}
 	c.ob(rule, "rotation-has-a-writer", uht.Pos(), n >= 1, false, "")
+}
+
+// R09.13 the refresh always publishes: every way through updateHealthyTargets stores the rotation (the reset it starts
+// with, or the finished list at the end). A refresh that keeps the published list under some condition ("nothing joined
+// or left": same length) leaves a target that failed in rotation when another one recovered before the refresh ran.
+func rRefreshAlwaysPublishes(c *Ctx, rule string) {
+	c.floor(rule, 1)
+	fn := c.method("LoadBalancer", "updateHealthyTargets")
+	healthyF := c.field("LoadBalancer", "healthy")
+	isStore := func(in ssa.Instruction) bool {
+		st, ok := in.(*ssa.Store)
+		if !ok {
+			return false
+		}
+		f, _, ok := fieldOfAddr(st.Addr)
+		return ok && f == healthyF
+	}
+	isRet := func(in ssa.Instruction) bool { _, ok := in.(*ssa.Return); return ok }
+	at, skips := reach(fn, nil, isRet, isStore)
+	pos := fn.Pos()
+	if skips && at != nil && at.Pos().IsValid() {
+		pos = at.Pos()
+	}
+	c.ob(rule, "updateHealthyTargets/every-way-through-stores-the-rotation", pos, !skips, true, "a way through the refresh that stores nothing into LoadBalancer.healthy keeps a stale rotation")
 }
